@@ -320,7 +320,10 @@ fn c02_case(leg: &mut Leg, r: &mut Rng, case_seed: u64, big_prefix: Option<u8>) 
             }
             Ok(Served::Reply(y, _)) => {
                 if y == iface {
-                    leg.violation("C02/servers-own-address-leased", format!("{} (the receiving interface's address) was leased; pool {:?}", ipj(y), d.iter().map(|x| ipj(*x)).collect::<Vec<_>>()), replay.clone());
+                    // an explicit apply-address / apply-range / apply-subnet that lists the interface's own
+                    // address is a different (known) matter from the derived pool handing it out
+                    let sig = if serverip_listed { "C02/servers-own-address-leased/listed-by-an-explicit-policy-pool" } else { "C02/servers-own-address-leased/from-derived-pool" };
+                    leg.violation(sig, format!("{} (the receiving interface's address) was leased; pool {:?}", ipj(y), d.iter().map(|x| ipj(*x)).collect::<Vec<_>>()), replay.clone());
                     return;
                 }
                 if !d.contains(&y) {
